@@ -8,8 +8,9 @@
 
 namespace vf::env {
    // Allocator personalities.  Malloc passes through to malloc/free (keeps the sanitizers' view of the heap);
-   // the three arena modes hand out addresses from a private region in ascending, descending or alternating
-   // (low end, high end, low end, ...) order, so that any two nodes get both relative address orders.
+   // the three arena modes hand out addresses from a private region in ascending order, in descending order,
+   // or alternating round-robin among three lanes 1.5 GiB apart, so that any two nodes get both relative address orders
+   // and address differences exceed 2^31.
    enum class Alloc { Malloc, Ascending, Descending, Alternating };
    void set_alloc(Alloc);
    Alloc get_alloc();
